@@ -1,4 +1,6 @@
-package main
+// Package prefetchx: the C15 harness proper (shared by cmd/prefetch of module verif/harness, which links the memory
+// metadata store, and cmd/prefetchdb of module verif/harnesscmd, which adds the bbolt store living under /repo/cmd).
+package prefetchx
 
 import (
 	"archive/tar"
@@ -332,6 +334,7 @@ type world struct {
 	held      bool
 	bgRan     bool
 	bgOK      bool
+	storeDone func()
 }
 
 type problem struct {
@@ -347,7 +350,15 @@ func (w *world) finding(sig, format string, a ...any) {
 	w.problems = append(w.problems, problem{sig: sig, what: fmt.Sprintf(format, a...)})
 }
 
-var storeFactory = map[string]metadata.Store{"memory": memorymetadata.NewReader}
+// StoreFactory makes a metadata store for one case (dir = scratch directory of the case) and its cleanup.
+type StoreFactory func(dir string) (metadata.Store, func(), error)
+
+// MemoryStore is the factory of the in-memory metadata store.
+func MemoryStore(dir string) (metadata.Store, func(), error) {
+	return memorymetadata.NewReader, func() {}, nil
+}
+
+var storeFactory = map[string]StoreFactory{}
 
 func cleanName(n string) string { return strings.TrimPrefix(path.Clean("/"+n), "/") }
 
@@ -383,10 +394,15 @@ func setup(c *Case, obs *Obs) (*world, error) {
 			MaxLRUCacheEntry: c.LRU, MaxCacheFds: c.LRU, SyncAdd: c.SyncAdd,
 		},
 	}
-	store := storeFactory[c.Store]
-	if store == nil {
+	mk := storeFactory[c.Store]
+	if mk == nil {
 		return nil, fmt.Errorf("metadata store %q is not linked into this harness", c.Store)
 	}
+	store, storeDone, err := mk(w.tmp)
+	if err != nil {
+		return nil, err
+	}
+	w.storeDone = storeDone
 	w.resolver, err = layer.NewResolver(w.tmp, w.tm, cfg, map[string]remote.Handler{"mem": w.reg}, store, layer.OverlayOpaqueAll, nil)
 	if err != nil {
 		return nil, err
@@ -558,6 +574,9 @@ func (w *world) teardown() {
 	pctl.settle()
 	if w.l != nil {
 		w.l.Close()
+	}
+	if w.storeDone != nil {
+		w.storeDone()
 	}
 	os.RemoveAll(w.tmp)
 }
